@@ -22,6 +22,7 @@ REQUIRED_THEOREMS = [
     "TapkeeVerif.QuadTree.mass_witness",
     "TapkeeVerif.QuadTree.forces_theta0_exact",
     "TapkeeVerif.QuadTree.forces_exact_below_threshold",
+    "TapkeeVerif.QuadTree.force_error_bound",
     "TapkeeVerif.QuadTree.order_independent_observables",
     "TapkeeVerif.QuadTree.fuel_suffices",
     "TapkeeVerif.QuadTree.fuel_irrelevant",
